@@ -1173,3 +1173,10 @@ MANIFEST_TEXT["C13"]["text"] += (" C13Config (closes the former gap 'configure_p
     "panic; div_ceil(8) of any u16 bit count is at most 8192: no `+ 7` overflow in increment_byte_aligned), pdo_sum_255x255_fixed "
     "(64 PDOs x 65025 bits x oversampling 65535 = 272 730 456 000 bits computed exactly in both modes, then refused with "
     "IntegerTypeConversion; 5 x 65025 bits = 40641 bytes).")
+
+# C06: publish-then-wake (added after seed C06c)
+MANIFEST_TEXT["C06"]["text"] += (" Handing a (re-)queued frame to the transmit task: publish_then_wake_never_strands (finite model of the publishing side "
+                                 "against a transmit task sleeping on its waker, ALL interleavings by kernel evaluation, state space proved closed), "
+                                 "wake_then_publish_strands_counterexample, publish_wake_order_sites (T1: every site of /repo that makes a frame Sendable calls "
+                                 "wake_sender() after publishing and before awaiting).")
+PROPS["C06"]["modelled"] += "; the publish/wake hand-over to the transmit task (TxWake.lean) with the order of the two statements regenerated from every publishing site"
